@@ -255,6 +255,9 @@ def _capacity_checks(ctx, f, cls, narrow_pred, label):
             elif guard > capacity:
                 ok, detail = False, 'values up to %d pass the guard but the field holds at most %d: the excess is ' \
                                     'silently truncated' % (guard, capacity)
+            elif guard < capacity:
+                ok, detail = False, 'the field holds values up to %d but the guard rejects everything above %d: a ' \
+                                    'legal %s is refused' % (capacity, guard, label)
     return n, ok, detail
 
 
